@@ -41,9 +41,37 @@ fn global_labels(plan: &Plan) -> ! {
     finish(&v, plan)
 }
 
+/// run_upkeep() on one thread and render() on another, serialised at the recorder's yield points (before a bucket is drained,
+/// before the distributions lock is taken) in the order of the plan: a render that starts after both samples were recorded
+/// must report both, whatever the other drainer is doing.
+fn lock_discipline(plan: &Plan) -> ! {
+    let rec = PrometheusBuilder::new().build_recorder();
+    let h = rec.handle();
+    metrics::with_local_recorder(&rec, || {
+        let hist = metrics::histogram!("c07_l");
+        hist.record(1.0);
+        hist.record(2.0);
+    });
+    install(plan.sched.clone());
+    let h1 = h.clone();
+    let t1 = std::thread::spawn(move || { set_thread(1); h1.run_upkeep(); thread_done(); });
+    let h2 = h.clone();
+    let t2 = std::thread::spawn(move || { set_thread(2); let t = h2.render(); thread_done(); t });
+    let _ = t1.join();
+    let text = t2.join().unwrap_or_default();
+    metrics::verif_sched::set_hook(None);
+    println!("{}", text);
+    let mut v: Vec<&str> = vec![];
+    let count = check_exposition(&text).ok().and_then(|lines| sample(&lines, "c07_l_count"));
+    println!("render during upkeep reports _count = {:?} (2 samples were recorded before either call started)", count);
+    if !diverged() && count.as_deref() != Some("2") { v.push("samples_leave_the_bucket_and_enter_the_distribution_under_one_write_lock"); }
+    finish(&v, plan)
+}
+
 fn main() {
     let plan = load_plan(&std::env::args().nth(1).expect("plan"));
     if plan.scenario == "c07_global_labels" { global_labels(&plan); }
+    if plan.scenario == "c07_lock" { lock_discipline(&plan); }
     let inp = |k: &str| plan.inputs.get(k).copied().unwrap_or(0);
     let rec = PrometheusBuilder::new().build_recorder();
     let h = rec.handle();
